@@ -2,13 +2,56 @@ import RtcVerif.Model.C14
 import RtcVerif.Proofs.C14Lemmas
 /-!
 GENERATED on every run of the C14 check by harness/translate_c14.py from `ModelicaMixin.bounds`,
-`history`, `seed` and `__nominals` in src/rtctools/optimization/modelica_mixin.py (symbolic
-execution of the per-variable loop body, path by path).  Do not edit.  Each `...Gen` is the source;
+`history`, `seed`, `__nominals` (symbolic execution of the per-variable loop body, path by path), the
+role classification loop of `__init__` and `output_variables` in
+src/rtctools/optimization/modelica_mixin.py.  Do not edit.  Each `...Gen` is the source;
 each `..._eq_model` ties it to the model function the C14 property theorems are about.
 -/
 set_option linter.unusedVariables false
 namespace RtcVerif.Gen
 open RtcVerif RtcVerif.C14
+
+def inputRoleGen (isDelay isLookup fixed : Bool) : Role :=
+  if isDelay then
+    .algebraic
+  else
+    if isLookup then
+      .lookup
+    else
+      if fixed then
+        .constantInput
+      else
+        .control
+
+theorem inputRoleGen_eq_model (isDelay isLookup fixed : Bool) :
+    inputRoleGen isDelay isLookup fixed = inputRoleOpt isDelay isLookup fixed := by
+  cases isDelay <;> cases isLookup <;> cases fixed <;> rfl
+
+/-- the role lists start empty and get the input's name appended when the classification says so -/
+def roleListGen (r : Role) (inputs : List InputRec) : List String :=
+  inputs.foldl (fun acc i => if inputRoleGen i.isDelay i.isLookup i.fixed = r then acc ++ [i.name] else acc) []
+
+theorem roleListGen_eq_model (r : Role) (inputs : List InputRec) :
+    roleListGen r inputs = roleListOf r inputs := by
+  unfold roleListGen
+  rw [foldl_collect (fun i => inputRoleGen i.isDelay i.isLookup i.fixed) r]
+  simp only [roleListOf, InputRec.role, inputRoleGen_eq_model, List.nil_append]
+  congr
+
+def outputsGen (declared controls : List String) : List String :=
+  (declared ++ controls)
+
+theorem outputsGen_eq_model (declared controls : List String) :
+    outputsGen declared controls = outputsOf declared controls := by
+  simp [outputsGen, outputsOf]
+
+/-- `output_variables` on top of the role lists `__init__` builds -/
+def exportedGen (declared : List String) (inputs : List InputRec) : List String :=
+  outputsGen declared (roleListGen .control inputs)
+
+theorem exportedGen_eq_model (declared : List String) (inputs : List InputRec) :
+    exportedGen declared inputs = exportedOf declared inputs := by
+  simp [exportedGen, exportedOf, controlsOf, outputsGen_eq_model, roleListGen_eq_model]
 
 def boundsGen (env : Env) (inherited : Option (EVal × EVal)) (d : Decl) : Option (EVal × EVal) :=
   match inherited with
